@@ -28,7 +28,10 @@ def make_sources(base, rng, nfiles):
     files = {}
     ids = []
     for i in range(nfiles):
-        funcs = []
+        # every normalisation of the canonicaliser is exercised in every file (hoisting chains across
+        # blocks, select-case ordering, several loops / IVs, nested loops, multiway branches)
+        funcs = [{"name": "N%d_%s" % (i, sh), "shape": sh, "k": i % 3, "origin": "o"}
+                 for sh in ("hoistchain", "selectmulti", "twoloops", "nested", "typeswitch", "goroutine")]
         for j in range(rng.choice([6, 10, 16])):
             f = {"name": "F%d_%d" % (i, j), "shape": rng.choice(gogen.SHAPES), "k": rng.choice([0, 1, 2, 3]),
                  "origin": "o", "edit": rng.choice([None, None, "op", "call"])}
